@@ -9,7 +9,7 @@ use sfs_core::input::{site::Site, ReadStatus};
 
 use crate::{
     cli::{run_sfs, Scratch, Stdin},
-    createmodel::{build_site_reader, ref_create, row_str, run_reader, sample_arg, Cls, MemReader},
+    createmodel::{build_site_reader, ref_create, row_str, run_reader, run_script, sample_arg, Cls, MemReader, ScriptReader, Seen, Step, Use},
     enumerate::{permutations, sequences},
     gen::{to_vcf, CallSet},
     json::J,
@@ -347,6 +347,187 @@ fn eval_long_split(k: usize, container: usize, threads: usize, project: bool, sc
     ))
 }
 
+// ---- library scripts: what a caller of the public reader interface may do between two sites ----
+
+/// Symbols of a script: a record of one of six kinds, a record with a non-diploid genotype in the
+/// first / the third column (the others called), a transient I/O error of the source, the source
+/// reporting its end although more follows, and the source changing its column layout.
+#[derive(Clone, Copy, Debug, PartialEq)]
+enum Sym {
+    Kind(usize),
+    PloidyFirst,
+    PloidyThird,
+    IoError,
+    End,
+    Permute,
+}
+
+const SCRIPT_KINDS: [usize; 6] = [1, 5, 8, 9, 10, 12];
+const PERMUTED: [usize; 4] = [2, 0, 3, 1];
+
+fn script_symbols() -> Vec<Sym> {
+    let mut v: Vec<Sym> = SCRIPT_KINDS.iter().map(|k| Sym::Kind(*k)).collect();
+    v.extend([Sym::PloidyFirst, Sym::PloidyThird, Sym::IoError, Sym::End, Sym::Permute]);
+    v
+}
+
+const USES: [Use; 5] = [Use::Add, Use::Drop, Use::Weight(-1.0), Use::Weight(0.5), Use::WeightTwice(3.0, 2.0)];
+
+/// Runs one script on the real reader and compares what every call returned and the accumulated
+/// spectrum with the reference: each record contributes its own row times the weight it was used
+/// with, whatever happened before it.
+fn eval_script(setup: &str, project: &Option<Vec<usize>>, syms: &[Sym], uses: &[usize]) -> Option<Viol> {
+    use sfs_core::input::genotype::{self, Error as GtError};
+    let ks = kinds();
+    let names: Vec<String> = (0..4).map(|i| format!("s{i}")).collect();
+    let mut order: Vec<usize> = (0..4).collect();
+    let mut steps: Vec<Step> = Vec::new();
+    let shape: Option<Vec<usize>> = project.as_ref().map(|m| m.iter().map(|x| x + 1).collect());
+    let zero_shape: Vec<usize> = match &shape {
+        Some(s) => s.clone(),
+        None => vec![5, 5],
+    };
+    let mut expect = RefArray::zeros(&zero_shape);
+    let mut expect_seen: Vec<Seen> = Vec::new();
+    let mut handed = 0usize;
+    for sym in syms {
+        let by_name: Option<Vec<genotype::Result>> = match sym {
+            Sym::Kind(k) => Some(ks[*k].1.iter().map(|c| c.to_result()).collect()),
+            Sym::PloidyFirst => Some(vec![genotype::Result::Error(GtError::PloidyError), Cls::G1.to_result(), Cls::G2.to_result(), Cls::G0.to_result()]),
+            Sym::PloidyThird => Some(vec![Cls::G1.to_result(), Cls::G2.to_result(), genotype::Result::Error(GtError::PloidyError), Cls::G1.to_result()]),
+            _ => None,
+        };
+        match sym {
+            Sym::Kind(k) => {
+                let r = ref_create(&[ks[*k].1.clone()], &MAP, project.as_deref());
+                if r.skipped == 1 {
+                    expect_seen.push(Seen::Insufficient);
+                } else {
+                    let w = USES[uses.get(handed).copied().unwrap_or(0)].effective();
+                    for (e, v) in expect.data.iter_mut().zip(&r.spectrum.data) {
+                        *e += w * v;
+                    }
+                    expect_seen.push(Seen::Counted);
+                }
+                handed += 1;
+            }
+            Sym::PloidyFirst | Sym::PloidyThird | Sym::IoError => expect_seen.push(Seen::Error),
+            Sym::End => expect_seen.push(Seen::Done),
+            Sym::Permute => {}
+        }
+        match sym {
+            Sym::IoError => steps.push(Step::IoError),
+            Sym::End => steps.push(Step::End),
+            Sym::Permute => {
+                order = if order == [0, 1, 2, 3] { PERMUTED.to_vec() } else { vec![0, 1, 2, 3] };
+                steps.push(Step::Columns(order.iter().map(|i| names[*i].clone()).collect()));
+            }
+            _ => {
+                let row = by_name.unwrap();
+                steps.push(Step::Row(order.iter().map(|i| row[*i]).collect()));
+            }
+        }
+    }
+    let calls = expect_seen.len() + 2;
+    expect_seen.extend([Seen::Done, Seen::Done]);
+    let use_list: Vec<Use> = uses.iter().map(|u| USES[*u]).collect();
+    let got = build_site_reader(Box::new(ScriptReader::new(&names, steps)), &MAP, shape.as_deref()).and_then(|mut r| run_script(&mut r, calls, &use_list));
+    let ok = match &got {
+        Ok((spectrum, seen)) => *seen == expect_seen && spectrum.shape == expect.shape && spectrum.data.iter().zip(&expect.data).all(|(a, b)| (a - b).abs() <= 1e-9),
+        Err(_) => false,
+    };
+    if ok {
+        return None;
+    }
+    let what = if syms.contains(&Sym::Permute) {
+        "column-layout-change"
+    } else if syms.iter().any(|s| matches!(s, Sym::PloidyFirst | Sym::PloidyThird | Sym::IoError)) {
+        "after-error"
+    } else if syms.contains(&Sym::End) {
+        "after-end"
+    } else if uses.iter().any(|u| *u == 1) {
+        "dropped-site"
+    } else if uses.iter().any(|u| *u != 0) {
+        "weighted-site"
+    } else {
+        "plain"
+    };
+    Some((
+        format!("C11|lib|script|{what}|{}", if project.is_some() { "project" } else { "no-projection" }),
+        format!("{setup}: script {syms:?} with the sites used as {use_list:?}: calls gave {:?}, expected {expect_seen:?} with spectrum {:?}", got.as_ref().map(|g| (&g.1, &g.0.data)), expect.data),
+        J::obj([
+            ("kind", J::s("c11-script")),
+            ("setup", J::s(setup)),
+            ("symbols", J::usizes(&syms.iter().map(|s| script_symbols().iter().position(|x| x == s).unwrap()).collect::<Vec<_>>())),
+            ("uses", J::usizes(uses)),
+        ]),
+    ))
+}
+
+/// The scripts of the public reader interface restricted to what another property is about; the
+/// violations come back under that property's id. `which`: "plain-create" (no projection, sites
+/// added as they come; ends, source errors and layout changes in between), "projected-weights"
+/// (projection set-ups; sites dropped and weighted), "ploidy" (records with a non-diploid genotype
+/// among ordinary ones), "accounting" (every symbol, sites added as they come).
+pub(super) fn scripts_for(prop: &str, which: &str, tier: Tier) -> (u64, Vec<Viol>) {
+    let symbols = script_symbols();
+    let max_len = tier.pick(3, 4);
+    let sus = setups();
+    let mut jobs: Vec<(usize, Vec<usize>, Vec<usize>)> = Vec::new();
+    for (si, (_, project)) in sus.iter().enumerate() {
+        if (which == "plain-create" && project.is_some()) || (which == "projected-weights" && project.is_none()) {
+            continue;
+        }
+        for seq in sequences(symbols.len(), 1, max_len) {
+            let syms: Vec<Sym> = seq.iter().map(|k| symbols[*k]).collect();
+            let n_rows = syms.iter().filter(|s| matches!(s, Sym::Kind(_))).count();
+            let keep = match which {
+                "plain-create" => !syms.iter().any(|s| matches!(s, Sym::PloidyFirst | Sym::PloidyThird)),
+                "projected-weights" => n_rows >= 1 && !syms.iter().any(|s| matches!(s, Sym::PloidyFirst | Sym::PloidyThird | Sym::IoError | Sym::End)),
+                "ploidy" => syms.iter().any(|s| matches!(s, Sym::PloidyFirst | Sym::PloidyThird)) && !syms.iter().any(|s| matches!(s, Sym::IoError | Sym::End | Sym::Permute)),
+                _ => true,
+            };
+            if !keep {
+                continue;
+            }
+            let use_sets: Vec<Vec<usize>> = if which == "projected-weights" {
+                if n_rows <= 2 { sequences(USES.len(), n_rows, n_rows) } else { (0..USES.len()).map(|u| vec![u; n_rows]).chain([vec![1, 0, 2], vec![2, 1, 3], vec![4, 0, 1]]).collect() }
+            } else {
+                vec![vec![0; n_rows]]
+            };
+            for us in use_sets {
+                jobs.push((si, seq.clone(), us));
+            }
+        }
+    }
+    let res = par_map(jobs.len(), |i| {
+        let (si, seq, us) = &jobs[i];
+        let syms: Vec<Sym> = seq.iter().map(|k| symbols[*k]).collect();
+        eval_script(sus[*si].0, &sus[*si].1, &syms, us)
+    });
+    let viols = res
+        .into_iter()
+        .flatten()
+        .map(|(k, w, j)| {
+            let mut j = j;
+            if let J::Obj(o) = &mut j {
+                o[0].1 = J::s(format!("{}-script", prop.to_lowercase()));
+            }
+            (k.replacen("C11|", &format!("{prop}|"), 1), w, j)
+        })
+        .collect();
+    (jobs.len() as u64, viols)
+}
+
+/// Replays a script case recorded by `scripts_for` (or by this property's own part).
+pub(super) fn replay_script(case: &J) -> Option<Vec<String>> {
+    let setup = case.get("setup")?.as_str()?.to_string();
+    let project = setups().into_iter().find(|(n, _)| *n == setup)?.1;
+    let symbols = script_symbols();
+    let syms: Vec<Sym> = case.get("symbols")?.as_usizes()?.iter().map(|i| symbols[*i]).collect();
+    Some(eval_script(&setup, &project, &syms, &case.get("uses")?.as_usizes()?).into_iter().map(|(k, w, _)| format!("{k} :: {w}")).collect())
+}
+
 pub fn run(tier: Tier) -> i32 {
     let mut rep = Report::new("C11", tier, "model_checking");
     let ks = kinds();
@@ -409,6 +590,46 @@ pub fn run(tier: Tier) -> i32 {
     });
     rep.traces += jobs.len() as u64;
 
+    // library scripts: every sequence of up to three symbols (four in the thorough tier) x every way of
+    // using the sites handed out, under every set-up
+    {
+        let symbols = script_symbols();
+        let max_len = tier.pick(3, 4);
+        let mut jobs: Vec<(usize, Vec<usize>, Vec<usize>)> = Vec::new();
+        let sus = setups();
+        for (si, _) in sus.iter().enumerate() {
+            for seq in sequences(symbols.len(), 1, max_len) {
+                let n_rows = seq.iter().filter(|i| matches!(symbols[**i], Sym::Kind(_))).count();
+                // uses: every assignment for up to two record symbols, the diagonal for more
+                let use_sets: Vec<Vec<usize>> = if n_rows <= 2 { sequences(USES.len(), n_rows, n_rows) } else { (0..USES.len()).map(|u| vec![u; n_rows]).chain([vec![1, 0, 2], vec![0, 1, 0], vec![2, 1, 3], vec![4, 0, 1]]).collect() };
+                for us in use_sets {
+                    jobs.push((si, seq.clone(), us));
+                }
+            }
+        }
+        let res = par_map(jobs.len(), |i| {
+            let (si, seq, us) = &jobs[i];
+            let syms: Vec<Sym> = seq.iter().map(|k| symbols[*k]).collect();
+            eval_script(sus[*si].0, &sus[*si].1, &syms, us)
+        });
+        let mut transitions = 0u64;
+        for ((_, seq, _), v) in jobs.iter().zip(res) {
+            transitions += seq.len() as u64 + 2;
+            if let Some((k, w, j)) = v {
+                rep.violation(k, w, j);
+            }
+        }
+        rep.transitions += transitions;
+        rep.traces += jobs.len() as u64;
+        rep.part(Part {
+            name: "lib: scripts over the public reader interface".into(),
+            evaluations: jobs.len() as u64,
+            nontrivial: jobs.len() as u64,
+            note: format!("every sequence of 1..{max_len} symbols over {{six record kinds, a record with a non-diploid genotype in the first / third column, a transient I/O error of the source, the source reporting its end early, a change of the column layout}} x the ways of using the sites handed out {{add, drop, weight -1, weight 0.5, weight 3 then 2}} x 6 set-ups, read_site called two more times than there are steps: every call returns what its own step implies and the spectrum is the weighted sum of the rows' own contributions ({} scripts)", jobs.len()),
+            exhaustive: true,
+            extra: vec![("depth_bound".into(), J::u(max_len))],
+        });
+    }
     // L2
     let scratch = Scratch::new("c11");
     let pick: Vec<&Vec<Cls>> = [1usize, 5, 8, 9, 11, 12, 15, 17].iter().map(|&i| &ks[i].1).collect();
@@ -690,6 +911,7 @@ pub fn replay(case: &J) -> Option<Vec<String>> {
             }
             Some(out)
         }
+        "c11-script" => replay_script(case),
         "c11-long-split" => {
             let scratch = Scratch::new("c11r");
             Some(
